@@ -62,19 +62,17 @@ def cfloat(x):
 
 
 def cD(x):
-    """a finite float as an exact dyadic (m, e) : Z*Z literal, m*2^e."""
+    """a finite float as an exact dyadic D (m*2^e): emitted as a primitive float literal
+    converted inside Coq by Lib.Dyadic.DF (fast to parse, exact)."""
     x = float(x)
     if not math.isfinite(x):
         raise ValueError("non-finite float has no dyadic value: %r" % x)
     if x == 0:
         return "(0,0)%Z"
-    m, e = math.frexp(x)
-    mi = int(m * (1 << 53))
-    e -= 53
-    while mi % 2 == 0:
-        mi //= 2
-        e += 1
-    return "(%s,%s)%%Z" % (cZraw(mi), cZraw(e))
+    h = x.hex()
+    if h.startswith("-"):
+        return "(DF (-%s)%%float)" % h[1:]
+    return "(DF %s%%float)" % h
 
 
 def cOD(x):
@@ -224,7 +222,9 @@ def eval_cases(pid, cases, imports, shard=300, timeout=900, prelude=""):
     for fn in os.listdir(d):
         if fn.startswith("cases_"):
             os.unlink(os.path.join(d, fn))
-    shards = [cases[i:i + shard] for i in range(0, len(cases), shard)]
+    nsh = max(1, -(-len(cases) // shard))
+    nsh = max(nsh, min(NPROC, len(cases) // 8 or 1))   # use the cores; round-robin spreads heavy streams
+    shards = [cases[k::nsh] for k in range(nsh)]
     procs = []
     logs = []
     ok = True
